@@ -346,6 +346,13 @@ func (state inSession) processReject(session *session, msg *Message, rej Message
 			return handleStateError(session, err)
 		}
 
+		// The rejected message is consumed - if it is the one that was expected. A message ahead of (or
+		// behind) the expected number must not use that number up: the message that really carries it
+		// would be refused as too low when it arrives.
+		if seqNum, err := msg.Header.GetInt(tagMsgSeqNum); err == nil && seqNum != session.store.NextTargetMsgSeqNum() {
+			return state
+		}
+
 		if err := session.store.IncrNextTargetMsgSeqNum(); err != nil {
 			return handleStateError(session, err)
 		}
